@@ -8,7 +8,17 @@
 //   special  : parts from {+-0, +-1, +-denorm_min, +-min, +-max, +-inf, NaN}            -> class of every component
 //              (nan / +-inf / finite) must agree with std::complex (C Annex G through glibc); finite values in
 //              this stratum are also held to the accuracy bound when the reference is finite and normal.
-//   random   : seeded, parts log-uniform in [2^-12, 2^5] with random signs (moderate domain).
+//   extreme  : FINITE non-special parts whose squares overflow/underflow (2^(+-EMAX/2) .. just below max, down into the
+//              denormals), mixed with ordinary and zero parts, so that |w|^2, part ratios and products overflow or
+//              underflow although operands and result are representable -> same class + accuracy rules.  Labelled
+//              sub-domains (own situation, never counted in the bound): divisor-zero, denormal-operand (unscaled Smith
+//              division), cosh-overflows (cosh/sinh of the relevant part is inf), modulus-denormal/-overflows (log).
+//              Division only: when the reference quotient itself is not representable (inf/NaN from finite operands)
+//              the result merely has to be non-finite too (libgcc's per-component inf/NaN choice is not a reference).
+//   trig-large: cos cosh sin sinh tan tanh with |part| in {20 .. 1e6} (cosh from ~1e8 to beyond overflow) as real resp.
+//              imaginary part while the other part sits at/next to odd multiples of pi/2, multiples of pi, or is ordinary.
+//   random   : seeded, parts log-uniform in [2^-12, 2^5] with random signs (moderate domain); plus seeded extreme parts
+//              (exponent uniform over the overflow / underflow bands, label "extreme").
 // Enumerated case = (function, index of the real part); the imaginary part (and the second operand) range over the list.
 #include "vf.hpp"
 #include "vf_contract.hpp"
@@ -62,6 +72,65 @@ std::vector<T> const& special()
     return v;
 }
 
+// extreme-magnitude stratum: FINITE, non-special parts whose squares overflow or underflow (|v| beyond 2^(+-EMAX/2)),
+// down into the denormals and up to just below max, plus three ordinary values so that tiny/huge/ordinary parts mix
+// and part ratios themselves overflow/underflow.  None of the values is one of the `special` ones (0, min, max, ...).
+std::vector<T> const& extreme()
+{
+    static std::vector<T> const v = [] {
+        using L        = std::numeric_limits<T>;
+        int const EMAX = L::max_exponent; // 128 / 1024
+        int const EMIN = L::min_exponent; // -125 / -1021 ; smallest normal = 2^(EMIN-1)
+        int const h    = EMAX / 2;
+        std::vector<T> pos;
+        T const ms[] = {T(1), T(1.171875), T(1.5), T(1.8125), T(1.3125), T(1.0625), T(1.9375), T(1.6875)};
+        int k        = 0;
+        auto add     = [&](int e) { pos.push_back(std::ldexp(ms[k++ % 8], e)); };
+        for (int e : {h - 2, h, h + 1, h + 3, 3 * EMAX / 4, EMAX - 7, EMAX - 2}) { add(e); }           // squares overflow
+        for (int e : {-(h - 3), -h, -(h + 2), -(h + 5), -3 * EMAX / 4, EMIN + 3}) { add(e); }            // squares underflow
+        add(EMIN - 1 - 6);                                                                              // denormals
+        add(EMIN - 1 - MB + 4);
+        for (T m : {T(1), T(0.37109375), T(3)}) { pos.push_back(m); }
+        pos.push_back(T(0)); // a zero part next to a tiny/huge one (one-sided operands); (0,0) divisors keep their own situation
+        std::vector<T> out;
+        for (std::size_t i = 0; i < pos.size(); ++i) {
+            out.push_back(pos[i]);
+            if (i % 2 == 0) { out.push_back(-pos[i]); }
+        }
+        return out;
+    }();
+    return v;
+}
+// trig/hyperbolic functions with a large argument of cosh/sinh (products and quotients of huge factors) while the other
+// part sits at or next to odd multiples of pi/2 (one factor almost cancels) or is ordinary
+std::vector<T> const& trig_large()
+{
+    static std::vector<T> const v = [] {
+        std::vector<T> m;
+        for (T a : {T(20), T(44), T(44.5), T(45), T(60), T(80), T(88), T(88.5), T(89), T(100), T(300), T(354), T(355), T(356), T(700),
+                 T(709), T(709.5), T(710), T(711), T(1000), T(1e4), T(1e6)}) {
+            m.push_back(a);
+            m.push_back(-a);
+        }
+        return m;
+    }();
+    return v;
+}
+std::vector<T> const& trig_other()
+{
+    static std::vector<T> const v = [] {
+        std::vector<T> m;
+        T const hp = T(1.5707963267948966);
+        for (T a : {hp, std::nextafter(hp, T(0)), std::nextafter(hp, T(2)), T(4.71238898038469), T(7.853981633974483), T(10.995574287564276),
+                 T(3.141592653589793), T(6.283185307179586), T(0.7853981633974483), T(0.5), T(1), T(2), T(1e-3), T(1e-10), T(1e-30)}) {
+            m.push_back(a);
+            m.push_back(-a);
+        }
+        return m;
+    }();
+    return v;
+}
+
 // sign-less part classes for situation labels: nan inf huge tiny zero finite
 char const* part_class(T v)
 {
@@ -95,7 +164,7 @@ char const* rclass(T v)
 struct Ctx {
     char const* subject;
     char const* op;
-    char const* stratum; // "moderate" | "special" | "random"
+    char const* stratum; // "moderate" | "special" | "extreme" | "trig-large" | "random"
     std::uint64_t bound;
     std::uint64_t n = 0;
     std::uint64_t maxerr = 0;
@@ -105,6 +174,10 @@ struct Ctx {
     T a{}, b{}, p{}, q{};
     bool two = false;
     bool in_sub = false;           // the current evaluation is in that sub-domain (not counted in maxerr)
+    char const* sub = nullptr;     // label of the sub-domain (situation suffix)
+    int trig_large = 0;            // trig-large stratum: 1 = the large part is the real part, 2 = the imaginary part
+    int hyp_part = 0;              // which part goes through cosh/sinh: 1 = real (cosh sinh tanh), 2 = imaginary (cos sin tan)
+    bool relax_overflow = false;   // division in the extreme strata: an overflowed reference quotient only requires a non-finite result
 };
 
 void zshow(char* out, std::size_t cap, T re, T im) { std::snprintf(out, cap, "(%a,%a)", (double)re, (double)im); }
@@ -123,7 +196,7 @@ void flush_crumb(Ctx& c)
             std::snprintf(sit, sizeof sit, "special,z=(%s,%s)", part_class(a), part_class(b));
         }
     } else if (c.in_sub) {
-        std::snprintf(sit, sizeof sit, "%s,%s", c.stratum, c.div_matters ? "divisor-zero" : "near-one");
+        std::snprintf(sit, sizeof sit, "%s,%s", c.stratum, c.sub ? c.sub : "sub-domain");
     } else {
         std::snprintf(sit, sizeof sit, "%s", c.stratum);
     }
@@ -139,12 +212,26 @@ void set_crumb(Ctx& c, T a, T b, T p, T q, bool two)
 {
     c.a = a, c.b = b, c.p = p, c.q = q, c.two = two;
     c.in_sub = false;
+    c.sub    = nullptr;
     if (std::strcmp(c.stratum, "special") != 0) {
         if ((c.div_matters == 1 && fp::is_zero(p) && fp::is_zero(q)) || (c.div_matters == 2 && fp::is_zero(a) && fp::is_zero(b))) {
-            c.in_sub = true;
+            c.sub = "divisor-zero";
         } else if (c.near_one_matters && std::hypot((W)a - 1, (W)b) < (W)0.0625) {
-            c.in_sub = true;
+            c.sub = "near-one";
+        } else if (c.hyp_part && fp::is_inf(std::cosh(c.hyp_part == 1 ? a : b))) {
+            // cosh/sinh of that part overflow: the textbook quotient/product formulas are inf/inf or inf*0 there
+            c.sub = "cosh-overflows";
+        } else if (c.div_matters && (fp::is_denormal(a) || fp::is_denormal(b) || fp::is_denormal(p) || (c.div_matters == 1 && fp::is_denormal(q)))) {
+            c.sub = "denormal-operand"; // unscaled Smith division loses the low bits of denormal operands / products
+        } else if (c.near_one_matters) {
+            W const m = std::hypot((W)a, (W)b);
+            if (m < (W)std::numeric_limits<T>::min()) {
+                c.sub = "modulus-denormal";
+            } else if (m > (W)std::numeric_limits<T>::max()) {
+                c.sub = "modulus-overflows";
+            }
         }
+        c.in_sub = c.sub != nullptr;
     }
 #if VF_ASAN
     flush_crumb(c);
@@ -169,6 +256,12 @@ void cmp_c(Ctx& c, T er, T ei, T rr, T ri)
     char o[96], e[96];
     zshow(o, sizeof o, er, ei);
     zshow(e, sizeof e, rr, ri);
+    if (c.relax_overflow && (!fp::is_finite(rr) || !fp::is_finite(ri))) {
+        // the exact quotient is not representable: libgcc's choice of inf/NaN per component is not a reference,
+        // only "not an ordinary finite number" is demanded
+        if (fp::is_finite(er) && fp::is_finite(ei)) { vf::diverge("class-differs:finite-for-overflowed-quotient", o, e); }
+        return;
+    }
     if (std::strcmp(cre, xre) != 0 || std::strcmp(cri, xri) != 0) {
         char sym[96];
         std::snprintf(sym, sizeof sym, "class-differs:(%s,%s)-for-(%s,%s)", cre, cri, xre, xri);
@@ -333,14 +426,22 @@ void type_facts()
 unsigned random_cases_per_fn(vf::Tier t) { return VF_ASAN ? 2 : (t == vf::Tier::thorough ? 64 : 8); }
 unsigned random_per_case(vf::Tier t) { return VF_ASAN ? 512 : (t == vf::Tier::thorough ? 16384 : 4096); }
 
+unsigned random_extreme_cases_per_fn(vf::Tier t) { return VF_ASAN ? 1 : (t == vf::Tier::thorough ? 32 : 4); }
+
+// trig-large stratum: (function, which part is large)
+char const* const kTrigFns[] = {"cos(complex)", "cosh(complex)", "sin(complex)", "sinh(complex)", "tan(complex)", "tanh(complex)"};
+constexpr unsigned NTRIG = 6;
+
 std::uint64_t n_mod_cases() { return (std::uint64_t)NF * moderate().size(); }
 std::uint64_t n_spec_cases() { return (std::uint64_t)NF * special().size(); }
+std::uint64_t n_ext_cases() { return (std::uint64_t)NF * extreme().size(); }
+std::uint64_t n_trig_cases() { return (std::uint64_t)NTRIG * 2; }
 
 vf::Spec spec(vf::Tier t)
 {
     vf::Spec s;
-    s.n_enum     = n_mod_cases() + n_spec_cases() + 1;
-    s.n_random   = (std::uint64_t)NF * random_cases_per_fn(t);
+    s.n_enum     = n_mod_cases() + n_spec_cases() + n_ext_cases() + n_trig_cases() + 1;
+    s.n_random   = (std::uint64_t)NF * (random_cases_per_fn(t) + random_extreme_cases_per_fn(t));
     s.batch      = VF_ASAN ? 64 : 16;
     s.timeout_s  = 600;
     s.exhaustive = true;
@@ -384,48 +485,117 @@ T log_uniform(vf::Rng& r)
     return r.coin() ? v : -v;
 }
 
+// seeded extreme parts: magnitude 2^e with e uniform over the bands where squares overflow / underflow (and sometimes ordinary)
+T extreme_part(vf::Rng& r)
+{
+    using L        = std::numeric_limits<T>;
+    int const EMAX = L::max_exponent, EMIN = L::min_exponent, h = EMAX / 2;
+    int e;
+    switch (r.below(5)) {
+    case 0:
+    case 1: e = (int)r.range(h - 2, EMAX - 2); break;
+    case 2:
+    case 3: e = (int)r.range(EMIN - MB + 3, -(h - 3)); break;
+    default: e = (int)r.range(-3, 3); break;
+    }
+    T m = T(1) + T(r.below(1u << 20)) / T(1u << 20);
+    T v = std::ldexp(m, e);
+    return r.coin() ? v : -v;
+}
+
+bool prepare(Ctx& x, Fn const& fn)
+{
+    x.subject          = fn.subject;
+    x.op               = fn.op;
+    x.near_one_matters = std::strncmp(fn.subject, "log", 3) == 0;
+    x.div_matters      = std::strcmp(fn.op, "complex/complex") == 0 ? 1 : (std::strcmp(fn.op, "T/complex") == 0 ? 2 : 0);
+    for (char const* n : {"cosh(complex)", "sinh(complex)", "tanh(complex)"}) {
+        if (std::strcmp(fn.op, n) == 0) { x.hyp_part = 1; }
+    }
+    for (char const* n : {"cos(complex)", "sin(complex)", "tan(complex)"}) {
+        if (std::strcmp(fn.op, n) == 0) { x.hyp_part = 2; }
+    }
+    bool const ext_stratum = std::strcmp(x.stratum, "extreme") == 0 || std::strcmp(x.stratum, "trig-large") == 0;
+    x.relax_overflow       = ext_stratum && x.div_matters != 0;
+    if (fn.shape == EQ_CC || fn.shape == EQ_CT) { return true; }
+    // the extreme strata have their own committed entry "<subject>@extreme" where the unchanged tree needs one
+    if (std::strcmp(x.stratum, "extreme") == 0 || std::strcmp(x.stratum, "trig-large") == 0) {
+        char who[96];
+        std::snprintf(who, sizeof who, "%s@extreme", fn.subject);
+        long b = bound_of(who);
+        if (b >= 0) {
+            x.bound = (std::uint64_t)b;
+            return true;
+        }
+    }
+    return need_bound(fn.subject, fn.op, &x.bound);
+}
+
 void run_case(vf::Case& c)
 {
     Ctx x{};
     std::uint64_t h = vf::mix(c.index, c.enumerated ? 0xCC16 : vf::g().seed);
-    if (c.enumerated && c.index == n_mod_cases() + n_spec_cases()) {
+    std::uint64_t const o_spec = n_mod_cases(), o_ext = o_spec + n_spec_cases(), o_trig = o_ext + n_ext_cases(),
+                        o_facts = o_trig + n_trig_cases();
+    if (c.enumerated && c.index == o_facts) {
         type_facts();
         return;
     }
-    unsigned f;
-    if (c.enumerated && c.index < n_mod_cases()) {
+    if (c.enumerated && c.index < o_spec) {
         auto const& L = moderate();
-        f             = (unsigned)(c.index / L.size());
+        Fn const& fn  = kFns[c.index / L.size()];
         x.stratum     = "moderate";
-        Fn const& fn  = kFns[f];
-        x.subject = fn.subject, x.op = fn.op;
-    x.near_one_matters = std::strncmp(fn.subject, "log", 3) == 0;
-    x.div_matters      = std::strcmp(fn.op, "complex/complex") == 0 ? 1 : (std::strcmp(fn.op, "T/complex") == 0 ? 2 : 0);
-        if (fn.shape != EQ_CC && fn.shape != EQ_CT && !need_bound(fn.subject, fn.op, &x.bound)) { return; }
+        if (!prepare(x, fn)) { return; }
         drive_row(x, fn, L, L[c.index % L.size()]);
-    } else if (c.enumerated) {
-        auto const& L       = special();
-        std::uint64_t const k = c.index - n_mod_cases();
-        f                   = (unsigned)(k / L.size());
-        x.stratum           = "special";
-        Fn const& fn        = kFns[f];
-        x.subject = fn.subject, x.op = fn.op;
-    x.near_one_matters = std::strncmp(fn.subject, "log", 3) == 0;
-    x.div_matters      = std::strcmp(fn.op, "complex/complex") == 0 ? 1 : (std::strcmp(fn.op, "T/complex") == 0 ? 2 : 0);
-        if (!fn.special_too) { return; }
-        if (fn.shape != EQ_CC && fn.shape != EQ_CT && !need_bound(fn.subject, fn.op, &x.bound)) { return; }
+    } else if (c.enumerated && c.index < o_ext) {
+        auto const& L         = special();
+        std::uint64_t const k = c.index - o_spec;
+        Fn const& fn          = kFns[k / L.size()];
+        x.stratum             = "special";
+        if (!fn.special_too || !prepare(x, fn)) { return; }
         drive_row(x, fn, L, L[k % L.size()]);
+    } else if (c.enumerated && c.index < o_trig) {
+        auto const& L         = extreme();
+        std::uint64_t const k = c.index - o_ext;
+        Fn const& fn          = kFns[k / L.size()];
+        x.stratum             = "extreme";
+        if (fn.shape == EQ_CC || fn.shape == EQ_CT || !prepare(x, fn)) { return; }
+        drive_row(x, fn, L, L[k % L.size()]);
+    } else if (c.enumerated) {
+        std::uint64_t const k = c.index - o_trig;
+        char const* want      = kTrigFns[k / 2];
+        Fn const* fn          = nullptr;
+        for (auto const& f : kFns) {
+            if (std::strcmp(f.op, want) == 0) { fn = &f; }
+        }
+        if (!fn) { return; }
+        x.stratum    = "trig-large";
+        x.trig_large = (int)(k % 2) + 1;
+        if (!prepare(x, *fn)) { return; }
+        for (T big : trig_large()) {
+            for (T oth : trig_other()) {
+                if (x.trig_large == 1) {
+                    fn->call(x, big, oth, 0, 0);
+                } else {
+                    fn->call(x, oth, big, 0, 0);
+                }
+            }
+        }
     } else {
-        f            = (unsigned)(c.index / random_cases_per_fn(c.tier));
-        x.stratum    = "random";
-        Fn const& fn = kFns[f];
-        x.subject = fn.subject, x.op = fn.op;
-    x.near_one_matters = std::strncmp(fn.subject, "log", 3) == 0;
-    x.div_matters      = std::strcmp(fn.op, "complex/complex") == 0 ? 1 : (std::strcmp(fn.op, "T/complex") == 0 ? 2 : 0);
-        if (fn.shape != EQ_CC && fn.shape != EQ_CT && !need_bound(fn.subject, fn.op, &x.bound)) { return; }
+        unsigned const per_m = random_cases_per_fn(c.tier), per = per_m + random_extreme_cases_per_fn(c.tier);
+        Fn const& fn         = kFns[c.index / per];
+        bool const ext       = (c.index % per) >= per_m;
+        x.stratum            = ext ? "extreme" : "random";
+        if (ext && (fn.shape == EQ_CC || fn.shape == EQ_CT)) { return; }
+        if (!prepare(x, fn)) { return; }
         unsigned const n = random_per_case(c.tier);
         for (unsigned i = 0; i < n; ++i) {
-            T a = log_uniform(c.rng), b = log_uniform(c.rng), p = log_uniform(c.rng), q = log_uniform(c.rng);
+            T a, b, p, q;
+            if (ext) {
+                a = extreme_part(c.rng), b = extreme_part(c.rng), p = extreme_part(c.rng), q = extreme_part(c.rng);
+            } else {
+                a = log_uniform(c.rng), b = log_uniform(c.rng), p = log_uniform(c.rng), q = log_uniform(c.rng);
+            }
             if (fn.shape == POLAR) { a = std::fabs(a); }
             fn.call(x, a, b, p, q);
         }
@@ -436,7 +606,13 @@ void run_case(vf::Case& c)
         vf::sample(x.op, "%s %s stratum: %llu argument tuples compared with std::complex<" VF_T_NAME ">; last: %s", x.subject, x.stratum,
             (unsigned long long)x.n, vf::g().sh->args);
     }
-    if (x.maxerr && std::strcmp(x.stratum, "special") != 0) { note_maxulp(x.subject, x.maxerr, x.maxat); }
+    if (x.maxerr && std::strcmp(x.stratum, "special") != 0) {
+        // bounds are kept per (subject, stratum family): the extreme strata report under "<subject>@extreme"
+        char who[96];
+        bool const ext = std::strcmp(x.stratum, "extreme") == 0 || std::strcmp(x.stratum, "trig-large") == 0;
+        std::snprintf(who, sizeof who, "%s%s", x.subject, ext ? "@extreme" : "");
+        note_maxulp(who, x.maxerr, x.maxat);
+    }
 }
 } // namespace
 
